@@ -3,8 +3,10 @@
   encoding/json it relies on.
 
   otto (Go), builtin_json.go:
-    builtinJSONParse (l.15)        json.Unmarshal into interface{}, then builtinJSONParseWalk (l.71):
-                                   arrays -> newArrayOf, objects -> `for name := range map` + put (Go map order)
+    builtinJSONParse               json.Unmarshal into jsonValue (UnmarshalJSON: objects become ordered
+                                   []jsonMember, number tokens are converted with ParseFloat ignoring
+                                   ErrRange), then builtinJSONParseWalk: arrays -> newArrayOf, objects ->
+                                   members `put` in text order
     builtinJSONReviveWalk (l.42)   reviver walk: arrays by index, objects through the LIVE propertyOrder slice
     builtinJSONStringify (l.109)   replacer array -> propertyList (l.114-142), space -> gap (l.148-174),
                                    wrapper holder, builtinJSONStringifyWalk (l.195) into Go values,
@@ -14,7 +16,7 @@
     encoding/json Unmarshal: the RFC 8259 grammar (scanner.go), literal conversion (decode.go: convertNumber
       = strconv.ParseFloat with a range ERROR; unquote: \uXXXX surrogate halves that do not pair -> U+FFFD),
       objects into an unordered map (last duplicate wins);
-    encoding/json Marshal: map keys sorted by bytes, string escaping with escapeHTML (encode.go appendString),
+    encoding/json Encoder (SetEscapeHTML(false)): map keys sorted by bytes, string escaping (encode.go appendString),
       int64 in decimal, float64 by floatEncoder ('f', or 'e' when abs<1e-6 || abs>=1e21, "e-0X" -> "e-X");
     encoding/json Indent: newline + depth*indent after '{' '[' ',' and before '}' ']', ": " after keys,
       empty containers stay "{}" / "[]".
@@ -22,8 +24,7 @@
   (UTF-8) or []uint16; `Value.string()` (value_string.go:50) turns the latter into a Go string with
   utf16.Decode, i.e. every unpaired surrogate becomes U+FFFD.  At the code-unit level that is `goStr`.
   Go's decoder and encoder treat non-ASCII bytes inside strings opaquely, so the byte level is not
-  modelled separately (assumption recorded in checks/C11.json), except for the gap, which otto cuts
-  at 10 BYTES (l.160).
+  modelled separately (assumption recorded in checks/C11.json), not even for the gap.
 -/
 import OttoVerif.Base.F64
 import OttoVerif.Base.Str
@@ -268,15 +269,6 @@ def ltStr : List Nat → List Nat → Bool
   | _ :: _, [] => false
   | a :: s, b :: t => if a < b then true else if b < a then false else ltStr s t
 
-def insertKey (k : Str) (v : JV) : JMs → JMs
-  | .nil => .cons k v .nil
-  | .cons k' v' t => if ltStr k' k then .cons k' v' (insertKey k v t) else .cons k v (.cons k' v' t)
-
-/-- keys in ascending code-unit order (the canonical representative of an unordered map) -/
-def sortKeys : JMs → JMs
-  | .nil => .nil
-  | .cons k v t => insertKey k v (sortKeys t)
-
 /-! ### Go's decoder: literal conversion (decode.go) -/
 
 def isSurr (u : Nat) : Bool := 0xD800 ≤ u && u < 0xE000
@@ -296,19 +288,14 @@ def goCombine : List Item → Str
   | .esc u :: .raw w :: t =>
     if isSurr u then 0xFFFD :: w :: goCombine t else u :: w :: goCombine t
 
-/-- decode.go convertNumber: strconv.ParseFloat(s, 64); an out-of-range literal is an ERROR -/
-def goNum (n : NumLit) : Option FV :=
-  match n.value with
-  | .inf _ => none
-  | x => some x
+/-- jsonValue.UnmarshalJSON: strconv.ParseFloat(literal, 64) with ErrRange ignored (±Inf) -/
+def goNum (n : NumLit) : Option FV := some n.value
 
 /-- `Value.string()` of a []uint16 string / `[]byte(string)`: unpaired surrogates become U+FFFD -/
 def goStr (s : Str) : Str := Str.utf16Encode (Str.utf16Decode s)
 
-/-  json.Unmarshal's literal conversion followed by builtinJSONParseWalk (l.71): the Go value tree
-    becomes arrays and objects; an object's properties are `put` in Go MAP ITERATION ORDER, which Go
-    randomises.  The model keeps the map in its canonical (key-sorted) form: this is the SET of
-    properties, not a prediction of their order. -/
+/-  json.Unmarshal's literal conversion (through jsonValue.UnmarshalJSON) followed by
+    builtinJSONParseWalk: the members of an object are `put` one after the other in text order. -/
 mutual
 def decode : RT → Option JV
   | .null => some .null
@@ -316,7 +303,7 @@ def decode : RT → Option JV
   | .num n => (goNum n).map JV.num
   | .str s => some (.str (goCombine s))
   | .arr l => (decodeL l).map JV.arr
-  | .obj m => (decodeM m).map fun ms => JV.obj (sortKeys (defineAll .nil ms))
+  | .obj m => (decodeM m).map fun ms => JV.obj (defineAll .nil ms)
 def decodeL : RTs → Option JVs
   | .nil => some .nil
   | .cons v t => (decode v).bind fun a => (decodeL t).map fun b => JVs.cons a b
@@ -387,14 +374,15 @@ inductive WR (α : Type) where
   | throw
   | oof
 
-/-- value_number.go number() + the switch at builtin_json.go:231 -/
+/-- value_number.go number() + the number switch of builtinJSONStringifyWalk: an integral float64
+    below 2^53 in magnitude is handed over as int64, every other finite one as float64 -/
 def walkNum (x : FV) : GV :=
   match x with
   | .nan => .nil
   | .inf _ => .nil
   | .fin s m e =>
     if m = 0 then .int 0
-    else if truncAbs m e ≥ 2 ^ 63 then .float x
+    else if truncAbs m e ≥ 2 ^ 53 then .float x
     else if isIntegral m e then .int (truncInt (.fin s m e))
     else .float x
 
@@ -603,7 +591,7 @@ def hex4 (n : Nat) : Str :=
   let d (k : Nat) : Nat := let v := (n / 16 ^ k) % 16; if v < 10 then 48 + v else 87 + v
   [d 3, d 2, d 1, d 0]
 
-/-- encode.go appendString with escapeHTML = true (Go 1.23) -/
+/-- encode.go appendString with escapeHTML = false (Go 1.23): U+2028 and U+2029 are still escaped -/
 def goEscChar (c : Nat) : Str :=
   if c = 34 then [92, 34]
   else if c = 92 then [92, 92]
@@ -612,7 +600,7 @@ def goEscChar (c : Nat) : Str :=
   else if c = 10 then [92, 110]
   else if c = 13 then [92, 114]
   else if c = 9 then [92, 116]
-  else if c < 32 ∨ c = 60 ∨ c = 62 ∨ c = 38 ∨ c = 0x2028 ∨ c = 0x2029 then 92 :: 117 :: hex4 c
+  else if c < 32 ∨ c = 0x2028 ∨ c = 0x2029 then 92 :: 117 :: hex4 c
   else [c]
 
 def goQuote (s : Str) : Str := 34 :: (s.flatMap goEscChar ++ [34])
@@ -697,24 +685,15 @@ def PLItem.name (numStr : FV → Str) : PLItem → Option Str
   | .boxNum x => some (numStr x)
   | .other => none
 
-/-- l.117-142 as written: accepted names are stored AT THE ITEM'S OWN INDEX in a zero-filled
-    slice, `length` counts them, and the list is the first `length` slots -/
-def plSlots (numStr : FV → Str) : List PLItem → List Str → List Str
+/-- the replacer array: every accepted name not seen before is appended (`propertyList[length] = name`) -/
+def plNames (numStr : FV → Str) : List PLItem → List Str → List Str
   | [], _ => []
   | it :: rest, seen =>
     match it.name numStr with
-    | none => [] :: plSlots numStr rest seen
-    | some n => if seen.contains n then [] :: plSlots numStr rest seen else n :: plSlots numStr rest (n :: seen)
+    | none => plNames numStr rest seen
+    | some n => if seen.contains n then plNames numStr rest seen else n :: plNames numStr rest (n :: seen)
 
-def plCount (numStr : FV → Str) : List PLItem → List Str → Nat
-  | [], _ => 0
-  | it :: rest, seen =>
-    match it.name numStr with
-    | none => plCount numStr rest seen
-    | some n => if seen.contains n then plCount numStr rest seen else 1 + plCount numStr rest (n :: seen)
-
-def propertyList (numStr : FV → Str) (items : List PLItem) : List Str :=
-  (plSlots numStr items []).take (plCount numStr items [])
+def propertyList (numStr : FV → Str) (items : List PLItem) : List Str := plNames numStr items []
 
 inductive Replacer where
   | none
@@ -735,11 +714,10 @@ def gapCount (x : FV) : Nat :=
   | .inf s => if s then 0 else 10
   | .fin s m e => if s then 0 else if truncAbs m e > 10 then 10 else truncAbs m e
 
-/-- l.148-174.  A string gap is cut at 10 BYTES of its UTF-8 form. -/
+/-- the `space` argument: a string is cut at 10 UTF-16 code units (and, being a Go string, cannot
+    hold an unpaired surrogate) -/
 def gapOf : Space → Str
-  | .str s =>
-    let b := Str.bytesOfUnits s
-    if b.length > 10 then Str.unitsOfBytes (b.take 10) else goStr s
+  | .str s => goStr (s.take 10)
   | .num x => List.replicate (gapCount x) 32
   | _ => []
 
